@@ -47,13 +47,29 @@ func c20Respelled(f c20Field) bool {
 // c20KnownPattern: decidable patterns of listed findings over the MINIMISED failing history ("" = none).
 // F20: the failure is at the second identical run and every field that survived minimisation is a respelled numeric default.
 func c20KnownPattern(sp c20Spec, o c20Outcome) string {
-	if o.Stage != "second" || len(sp.V1) == 0 {
+	fs := sp.V1
+	switch o.Stage {
+	case "second":
+	case "third": // the same re-alter, seen on the run after v2 was reached (the respelled default sits on a field added in v2)
+		fs = sp.V2
+	default:
 		return ""
 	}
-	for _, f := range sp.V1 {
+	if !strings.Contains(o.Verdict, "schema-changing statements") {
+		return ""
+	}
+	n := 0
+	for _, f := range fs {
+		if f.Tag == "" {
+			continue // untagged fields that minimisation could not drop (a model needs one v1 field)
+		}
 		if !c20Respelled(f) {
 			return ""
 		}
+		n++
+	}
+	if n == 0 {
+		return ""
 	}
 	return c20F20
 }
